@@ -880,12 +880,12 @@ func c18e(c *Ctx) {
 	{
 		var f map[string]string
 		for _, r := range returnsOf(nr) {
-			_, f = c.withFields(nr, c.term(nr, r.Results[0]))
+			f = c.valueFields(nr, r.Results[0], r)
 		}
 		ok := f != nil && f["LineNumberStart"] == "$0.LineNumber" && f["LineNumberEnd"] == "$1.EndLineNumber" && f["CharStart"] == "$0.StartCharIndex" && f["CharEnd"] == "$1.EndCharIndex" && f["Utf8CharStart"] == "$0.StartUtf8CharIndex" && f["Utf8CharEnd"] == "$1.EndUtf8CharIndex" && f["Message"] == "$2"
 		c.Check(ok, "NewRangeParseError/fields", c.W.FuncPos(nr), "range error: start from the first token, end from the second", "NewRangeParseError does not take the start fields from tok1 and the end fields from tok2")
 		for _, r := range returnsOf(np) {
-			_, f = c.withFields(np, c.term(np, r.Results[0]))
+			f = c.valueFields(np, r.Results[0], r)
 		}
 		ok = f != nil && f["LineNumberStart"] == "$0.LineNumber" && f["LineNumberEnd"] == "$0.EndLineNumber" && f["CharStart"] == "$0.StartCharIndex" && f["CharEnd"] == "$0.EndCharIndex"
 		c.Check(ok, "NewParseError/fields", c.W.FuncPos(np), "error range = the token's own range", "NewParseError does not copy the token's own start and end")
